@@ -422,6 +422,10 @@ class Program:
         self.inline_stats = {"inlined_calls": 0, "helpers_removed": [], "helpers_inlined": []}
         if os.environ.get("VERIF_SA_NO_INLINE") != "1":
             self.inline_stats = inline_package({mn: m.tree for mn, m in self.modules.items() if not mn.startswith(PKG + ".testing") and mn != PKG + ".testing"}, keep)
+        if os.environ.get("VERIF_SA_NO_UNROLL") != "1":
+            from .unroll import unroll_package
+
+            self.inline_stats.update(unroll_package({mn: (m.tree, m.is_pkg) for mn, m in self.modules.items() if not mn.startswith(PKG + ".testing") and mn != PKG + ".testing"}))
         for m in self.modules.values():
             m.tree = _Canon().visit(m.tree)
             if os.environ.get("VERIF_SA_NO_ACCLOOP") != "1" and not (m.name == PKG + ".testing" or m.name.startswith(PKG + ".testing.")):
